@@ -58,4 +58,16 @@ __CPROVER_ensures(connp != NULL ==> (connp->in_tx != tx || tx == NULL) && (connp
 __CPROVER_ensures(connp != NULL ==> (connp->in_tx == __CPROVER_old(connp->in_tx) || (connp->in_tx == NULL && __CPROVER_old(connp->in_tx) == tx)))
 __CPROVER_ensures(connp != NULL ==> (connp->out_tx == __CPROVER_old(connp->out_tx) || (connp->out_tx == NULL && __CPROVER_old(connp->out_tx) == tx)))
 ;
+
+/* removing a transaction from its connection (called by htp_tx_destroy): its slot - and only a slot that held it - becomes NULL, the list keeps its
+ * size and order (indices of the other transactions stay valid: pairing, C04); a transaction that is not in the list changes nothing (DECLINED) */
+htp_status_t contract_htp_conn_remove_tx(htp_conn_t *conn, const htp_tx_t *tx)
+__CPROVER_requires(__CPROVER_is_fresh(conn, sizeof(*conn)) && WF_LIST_PRE(conn->transactions) && gk < conn->transactions->max_size && tx != NULL)
+__CPROVER_assigns(__CPROVER_object_whole(conn->transactions->elements))
+__CPROVER_ensures(__CPROVER_return_value == HTP_OK || __CPROVER_return_value == HTP_DECLINED)
+__CPROVER_ensures(gk < conn->transactions->current_size ==> (VIEW(conn->transactions, gk) == __CPROVER_old(VIEW(conn->transactions, gk)) ||
+                  (__CPROVER_old(VIEW(conn->transactions, gk)) == (void *) tx && VIEW(conn->transactions, gk) == NULL && __CPROVER_return_value == HTP_OK)))
+__CPROVER_ensures((__CPROVER_return_value == HTP_DECLINED && gk < conn->transactions->current_size) ==> VIEW(conn->transactions, gk) != (void *) tx)
+__CPROVER_ensures((gk < conn->transactions->current_size && __CPROVER_old(VIEW(conn->transactions, gk)) == (void *) tx) ==> __CPROVER_return_value == HTP_OK)
+;
 #endif
